@@ -846,6 +846,9 @@ func (cs *ContractSet) buildOverlay() (map[string][]byte, error) {
 				continue
 			}
 			sig := sigs[ct.RawKey]
+			if sig == nil && ct.RawKey == "init" {
+				sig = &funcSig{} // every package has an initialiser, declared or not
+			}
 			if sig == nil {
 				// the function under contract no longer exists under that name and receiver: not a load error - the checks that
 				// list it as a unit report it as a failed obligation (function-under-contract-missing)
